@@ -40,6 +40,12 @@ BUF_HDR = refcodec.enc_header_frame(
                      'n': {'deep': bytearray(b'd')}},
          'delivery_mode': 2, 'timestamp': A.dt(1600000000)}, 5)[0]
 BUF_HDR_EMPTY = refcodec.enc_header_frame(0, {}, 5)[0]
+# short flat tables (what a "hot table" cache would admit)
+BUF_HDR_FLAT = refcodec.enc_header_frame(
+    3, {'headers': {'retries': 0, 'k': 'v'}, 'app_id': 'a'}, 5)[0]
+BUF_QD_FLAT = refcodec.enc_method_frame(
+    M['Queue.Declare'], (0, 'flat', False, False, False, False, False,
+                         {'n': 1, 's': 'x'}), 3)[0]
 BUF_BODY = refcodec.enc_body_frame(b'payload\xce', 5)[0]
 BUF_HB = refcodec.HEARTBEAT
 BUF_PH = refcodec.enc_protocol_header(0, 9, 1)
@@ -293,22 +299,45 @@ def ev_twice_identity(p, keep):
 
 
 def ev_repeat_decode_mutate(p, keep):
-    """The same header and method buffers decoded six times; after each
+    """The same header and method buffers decoded 130 times; after each
     decode the result is mutated in place: no later decode and no earlier
-    result may change (caches admitted after N sightings, shallow copies)."""
+    result may change (caches admitted after N sightings, shallow copies).
+    Every decode's view goes into a digest; the last three rounds in full."""
+    import hashlib
+    digest = hashlib.sha256()
     out = []
     held = []
-    for k in range(6):
+    rounds = 130
+    first = None
+    for k in range(rounds):
         h, rh = decode(p, BUF_HDR)
         q, rq = decode(p, BUF_QD)
-        keep(h), keep(q)
-        out.append([rh, rq])
-        for (oh, oq), (wh, wq) in held:
-            out.append([frame_view(oh) == wh, frame_view(oq) == wq])
-        out.append([any(h.properties is o[0].properties or
-                        h.properties.headers is o[0].properties.headers or
-                        q.arguments is o[1].arguments
-                        for o, _w in held)])
+        hf, rhf = decode(p, BUF_HDR_FLAT)
+        qf, rqf = decode(p, BUF_QD_FLAT)
+        views = [rh, rq, rhf, rqf]
+        if first is None:
+            first = views
+        elif views != first:
+            # the event's own invariant: the same bytes decode to the same
+            # frame however often they were decoded and whatever was done to
+            # the earlier results
+            return ['BROKEN', 'decode number %d of the same buffers gives %s '
+                    'but the first gave %s' % (k + 1, views, first)]
+        mutate_all(hf, str(k))
+        mutate_all(qf, str(k))
+        if k < 3 or k >= rounds - 3:
+            keep(h), keep(q)
+        full = k < 3 or k >= rounds - 3
+        row = [rh, rq]
+        row.append([[frame_view(oh) == wh, frame_view(oq) == wq]
+                    for (oh, oq), (wh, wq) in held[-4:]])
+        row.append(any(h.properties is o[0].properties or
+                       h.properties.headers is o[0].properties.headers or
+                       q.arguments is o[1].arguments
+                       for o, _w in held[-8:]))
+        digest.update(repr(row).encode())
+        if full:
+            out.append(row)
         h.properties.headers['mut%d' % k] = k
         h.properties.headers['h'].append(k)
         h.properties.content_type = 'mutated-%d' % k
@@ -317,6 +346,8 @@ def ev_repeat_decode_mutate(p, keep):
         mutate_all(h, str(k))
         mutate_all(q, str(k))
         held.append(((h, q), (frame_view(h), frame_view(q))))
+        del held[:-8]
+    out.append(digest.hexdigest())
     return out
 
 
@@ -666,7 +697,7 @@ EVENTS = [
     ('mutate decoded array', ev_mutate_decoded_array),
     ('decode twice identities', ev_twice_identity),
     ('encode keeps its input', ev_encode_input_kept),
-    ('decode six times, mutating each result', ev_repeat_decode_mutate),
+    ('decode 130 times, mutating each result', ev_repeat_decode_mutate),
 ]
 TOGGLES = {'toggle ()': True, 'toggle (True)': True, 'toggle (False)': False}
 
